@@ -576,7 +576,7 @@ class Exec(object):
                 srcs = srcs * n.value
             if all(s.t.kind == 'set' for s in srcs):
                 tt = TUP(*[s.t.args[0] for s in srcs]); ps = S_pairs(tt, srcs)
-                if 'fin(' in repr(self.c.requires) + repr(self.c.loops):
+                if 'fin(' in repr(self.c.requires) + repr(self.c.loops) + repr(self.c.type_invariants):
                     # trusted Finset fact B-product-finite (Set.Finite.prod): a product of finite sets is finite
                     PRODUCT_FACTS.append(Implies(And([S.fin(s_) for s_ in srcs]), S.fin(ps)))
                 return ('set', ps)
@@ -1492,6 +1492,10 @@ class Exec(object):
         self.loop_stack.pop()
         for q in ends:
             self.check_inv(q, n, L, 'keep')
+            for i, hint in enumerate(L.get('body_end', [])):        # hints for the measure at the end of the loop body: proved on that path, then assumed
+                g = self.spec(q, hint)
+                self.oblig(q, 'loop%d/body-end#%d' % (n, i + 1), 'assert', g)
+                q.pc.append(g)
             if L.get('decreases'):
                 dec1 = [self.spec_term(q, d).z for d in L['decreases']]
                 self.oblig(q, 'loop%d/decreases' % n, 'decreases', lex_less(dec1, dec0))
@@ -1628,6 +1632,7 @@ class Exec(object):
         for g, src in c.ghost.items():
             p.ghost[g] = self.spec_term(p, src)
         for r in c.requires: p.pc.append(self.spec(p, r))
+        for r in c.type_invariants: p.pc.append(self.spec(p, r))
         self.entry_pc = list(p.pc)
         body = [s for s in self.fn.body]
         ends = self.run_block([p], body)
